@@ -57,6 +57,205 @@ def _show(a: Lin) -> str:
     return " + ".join((f"{c}*{x}" if x != "1" else str(c)) if not (c == 1 and x != "1") else x for x, c in sorted(a.items()))
 
 
+# ---- two's complement conversions, recognised by shape with constants folded ------------------------------------------------
+# value domain of the folding: int | ("p2", a, b) = 2**(a*W + b) | ("p2m1", a, b) = 2**(a*W + b) - 1, W the symbolic bit length
+def _fold(e, env):
+    """fold an integer expression over {name: int | ('w',)}; returns a domain value or None"""
+    if isinstance(e, ast.Constant) and isinstance(e.value, int) and not isinstance(e.value, bool):
+        return e.value
+    if isinstance(e, ast.Name):
+        v = env.get(e.id)
+        return v if v is not None else None
+    if isinstance(e, ast.BinOp):
+        a, b = _fold(e.left, env), _fold(e.right, env)
+        if a is None or b is None:
+            return None
+        lin = lambda v: (0, v) if isinstance(v, int) else ((1, 0) if v == ("w",) else (v[1], v[2]) if v[0] == "lin" else None)   # noqa: E731
+        if isinstance(e.op, ast.Pow) and a == 2 or isinstance(e.op, ast.LShift) and a == 1:
+            l_ = lin(b)
+            if l_ is None:
+                return None
+            return (2 ** l_[1]) if l_[0] == 0 and l_[1] >= 0 else ("p2", l_[0], l_[1])
+        if isinstance(e.op, (ast.Add, ast.Sub)):
+            sign = 1 if isinstance(e.op, ast.Add) else -1
+            if isinstance(a, int) and isinstance(b, int):
+                return a + sign * b
+            la, lb = lin(a), lin(b)
+            if la is not None and lb is not None and (a == ("w",) or b == ("w",) or (isinstance(a, tuple) and a[0] == "lin") or (isinstance(b, tuple) and b[0] == "lin")):
+                r = (la[0] + sign * lb[0], la[1] + sign * lb[1])
+                return r[1] if r[0] == 0 else ("lin", r[0], r[1])
+            if isinstance(a, tuple) and a[0] == "p2" and b == 1 and sign == -1:
+                return ("p2m1", a[1], a[2])
+            return None
+        if isinstance(a, int) and isinstance(b, int):
+            try:
+                if isinstance(e.op, ast.Mult):
+                    return a * b
+                if isinstance(e.op, ast.FloorDiv):
+                    return a // b
+                if isinstance(e.op, ast.RShift):
+                    return a >> b
+                if isinstance(e.op, ast.LShift):
+                    return a << b
+                if isinstance(e.op, ast.Pow) and b >= 0:
+                    return a ** b
+            except (ZeroDivisionError, ValueError):
+                return None
+            return None
+        if isinstance(a, tuple) and a[0] == "p2" and (isinstance(e.op, ast.FloorDiv) and b == 2 or isinstance(e.op, ast.RShift) and b == 1):
+            return ("p2", a[1], a[2] - 1)
+        return None
+    return None
+
+
+def _p2(w, k=0):
+    """2**(W + k) in the folding domain, W = w (int) or symbolic"""
+    return 2 ** (w + k) if isinstance(w, int) else ("p2", 1, k)
+
+
+def _p2m1(w, k=0):
+    return 2 ** (w + k) - 1 if isinstance(w, int) else ("p2m1", 1, k)
+
+
+def _strip_int(e):
+    while isinstance(e, ast.Call) and isinstance(e.func, ast.Name) and e.func.id == "int" and len(e.args) == 1 and not e.keywords:
+        e = e.args[0]
+    return e
+
+
+def _same(a, b) -> bool:
+    return ast.unparse(a).replace(" ", "") == ast.unparse(b).replace(" ", "")
+
+
+def _is_to_unsigned(e, x, w, env) -> bool:
+    """e is the W-bit two's complement image of the signed value x:  (2**W + x) if x < 0 else x  |  x & (2**W - 1)  |  x % 2**W"""
+    e = _strip_int(e)
+    K, Mk = _p2(w), _p2m1(w)
+    if isinstance(e, ast.IfExp):
+        t, a, b = e.test, _strip_int(e.body), _strip_int(e.orelse)
+        neg = isinstance(t, ast.Compare) and len(t.ops) == 1 and (
+            (isinstance(t.ops[0], ast.Lt) and _same(t.left, x) and _fold(t.comparators[0], env) == 0) or
+            (isinstance(t.ops[0], ast.Gt) and _same(t.comparators[0], x) and _fold(t.left, env) == 0))
+        nonneg = isinstance(t, ast.Compare) and len(t.ops) == 1 and (
+            (isinstance(t.ops[0], ast.GtE) and _same(t.left, x) and _fold(t.comparators[0], env) == 0) or
+            (isinstance(t.ops[0], ast.LtE) and _same(t.comparators[0], x) and _fold(t.left, env) == 0))
+        if nonneg:
+            a, b, neg = b, a, True
+        if neg and _same(b, x) and isinstance(a, ast.BinOp) and isinstance(a.op, ast.Add):
+            l_, r_ = a.left, a.right
+            return (_same(r_, x) and _fold(l_, env) == K) or (_same(l_, x) and _fold(r_, env) == K)
+        return False
+    if isinstance(e, ast.BinOp) and isinstance(e.op, ast.BitAnd):
+        return (_same(e.left, x) and _fold(e.right, env) == Mk) or (_same(e.right, x) and _fold(e.left, env) == Mk)
+    if isinstance(e, ast.BinOp) and isinstance(e.op, ast.Mod):
+        return _same(e.left, x) and _fold(e.right, env) == K
+    return False
+
+
+def _is_to_signed(e, u, w, env) -> bool:
+    """e is the signed reading of the W-bit pattern u:  (u - 2**W) if u >= 2**(W-1) else u  |  (u & (H - 1)) - (u & H)  |  (u ^ H) - H"""
+    e = _strip_int(e)
+    K, H, Hm = _p2(w), _p2(w, -1), _p2m1(w, -1)
+    if isinstance(e, ast.IfExp):
+        t, a, b = e.test, _strip_int(e.body), _strip_int(e.orelse)
+        hi = False
+        if isinstance(t, ast.Compare) and len(t.ops) == 1:
+            op, l_, r_ = t.ops[0], t.left, t.comparators[0]
+            hi = (isinstance(op, ast.GtE) and _same(l_, u) and _fold(r_, env) == H) or (isinstance(op, ast.LtE) and _same(r_, u) and _fold(l_, env) == H) or \
+                 (isinstance(op, ast.Gt) and _same(l_, u) and _fold(r_, env) == Hm) or (isinstance(op, ast.Lt) and _same(r_, u) and _fold(l_, env) == Hm)
+            lo = (isinstance(op, ast.Lt) and _same(l_, u) and _fold(r_, env) == H) or (isinstance(op, ast.Gt) and _same(r_, u) and _fold(l_, env) == H) or \
+                 (isinstance(op, ast.LtE) and _same(l_, u) and _fold(r_, env) == Hm) or (isinstance(op, ast.GtE) and _same(r_, u) and _fold(l_, env) == Hm)
+            if lo:
+                a, b, hi = b, a, True
+        elif isinstance(t, ast.BinOp) and isinstance(t.op, ast.BitAnd):
+            hi = (_same(t.left, u) and _fold(t.right, env) == H) or (_same(t.right, u) and _fold(t.left, env) == H)
+        return bool(hi) and _same(b, u) and isinstance(a, ast.BinOp) and isinstance(a.op, ast.Sub) and _same(a.left, u) and _fold(a.right, env) == K
+    if isinstance(e, ast.BinOp) and isinstance(e.op, ast.Sub):
+        l_, r_ = _strip_int(e.left), _strip_int(e.right)
+        def masked(n, m):
+            return isinstance(n, ast.BinOp) and isinstance(n.op, ast.BitAnd) and ((_same(n.left, u) and _fold(n.right, env) == m) or (_same(n.right, u) and _fold(n.left, env) == m))
+        if masked(l_, Hm) and masked(r_, H):
+            return True
+        if isinstance(l_, ast.BinOp) and isinstance(l_.op, ast.BitXor) and _fold(r_, env) == H:
+            return (_same(l_.left, u) and _fold(l_.right, env) == H) or (_same(l_.right, u) and _fold(l_.left, env) == H)
+    return False
+
+
+def _body_expr(f: ast.FunctionDef) -> typing.Optional[ast.expr]:
+    """the value a small pure function returns, as one expression over its parameters: docstring and asserts dropped, single-assigned
+    locals substituted, `if c: return a` ... `return b` turned into `a if c else b`"""
+    import copy
+    env: typing.Dict[str, ast.expr] = {}
+
+    class B(ast.NodeTransformer):
+        def visit_Name(self, node):
+            if isinstance(node.ctx, ast.Load) and node.id in env:
+                return copy.deepcopy(env[node.id])
+            return node
+
+    def seq(stmts):
+        for i, st in enumerate(stmts):
+            if isinstance(st, ast.Expr) and isinstance(st.value, ast.Constant) or isinstance(st, ast.Assert):
+                continue
+            if isinstance(st, ast.Assign) and len(st.targets) == 1 and isinstance(st.targets[0], ast.Name):
+                env[st.targets[0].id] = B().visit(copy.deepcopy(st.value))
+                continue
+            if isinstance(st, ast.AnnAssign) and isinstance(st.target, ast.Name) and st.value is not None:
+                env[st.target.id] = B().visit(copy.deepcopy(st.value))
+                continue
+            if isinstance(st, ast.Return) and st.value is not None:
+                return B().visit(copy.deepcopy(st.value))
+            if isinstance(st, ast.If):
+                saved = dict(env)
+                a = seq(st.body)
+                env.clear(); env.update(saved)
+                b = seq(st.orelse) if st.orelse else None
+                env.clear(); env.update(saved)
+                if a is None:
+                    return None
+                if b is None:
+                    b = seq(stmts[i + 1:])
+                if b is None:
+                    return None
+                return ast.IfExp(test=B().visit(copy.deepcopy(st.test)), body=a, orelse=b)
+            return None
+        return None
+
+    r = seq(f.body)
+    return ast.fix_missing_locations(r) if r is not None else None
+
+
+def _through_method(cls_: typing.Dict[str, ast.FunctionDef], e: ast.expr, depth: int = 0) -> ast.expr:
+    """replace a call of a small helper of the same class (`self._h(a, b)` / `Cls._h(a, b)`) by the helper's value with the arguments
+    bound; other expressions are returned as they are"""
+    import copy
+    e = _strip_int(e)
+    if depth > 2 or not (isinstance(e, ast.Call) and isinstance(e.func, ast.Attribute) and isinstance(e.func.value, ast.Name) and not e.keywords):
+        return e
+    h = cls_.get(e.func.attr)
+    if h is None or not e.func.attr.startswith("_"):
+        return e
+    params = [a.arg for a in h.args.args]
+    static = any(isinstance(d, ast.Name) and d.id == "staticmethod" for d in h.decorator_list)
+    if not static:
+        params = params[1:]
+    if len(params) != len(e.args):
+        return e
+    body = _body_expr(h)
+    if body is None:
+        return e
+    env = dict(zip(params, e.args))
+
+    class B(ast.NodeTransformer):
+        def visit_Name(self, node):
+            if isinstance(node.ctx, ast.Load) and node.id in env:
+                return copy.deepcopy(env[node.id])
+            return node
+
+    return _through_method(cls_, ast.fix_missing_locations(B().visit(copy.deepcopy(body))), depth + 1)
+
+
+
 class _Unknown(Exception):
     pass
 
@@ -371,27 +570,48 @@ def run(ctx):
             second = [s for s in g.body if isinstance(s, ast.AugAssign) and isinstance(s.op, ast.BitOr) and ast.unparse(s.value).replace(" ", "") == f"self.fetch_aligned_u{h}()<<{h}"]
             ok = len(first) == 1 and len(second) == 1 and first[0].lineno < second[0].lineno
         ctx.ob(R, rel, f"Deserializer.fetch_aligned_u{w} :: low half | (high half << {h})", ok, "", g.lineno if g else None)
+    def _call_of(f, callee):
+        cs = [c for c in ast.walk(f) if isinstance(c, ast.Call) and ast.unparse(c.func) == f"self.{callee}"] if f else []
+        return cs[0] if len(cs) == 1 else None
+
     for w in (8, 16, 32, 64):
         f = S.get(f"add_aligned_i{w}")
-        src = ast.unparse(f).replace(" ", "") if f else ""
-        x = f.args.args[1].arg if f else "x"
-        ok = any(f"self.add_aligned_u{w}({k}+{x}if{x}<0else{x})" in src for k in (str(2 ** w), f"2**{w}"))
-        ctx.ob(R, rel, f"Serializer.add_aligned_i{w} :: two's complement with 2**{w}", ok, "", f.lineno if f else None)
+        x = ast.Name(id=f.args.args[1].arg, ctx=ast.Load()) if f else None
+        c = _call_of(f, f"add_aligned_u{w}")
+        ok = c is not None and len(c.args) == 1 and _is_to_unsigned(_through_method(S, c.args[0]), x, w, {})
+        ctx.ob(R, rel, f"Serializer.add_aligned_i{w} :: two's complement with 2**{w}", ok,
+               "" if ok else (f"writes `{ast.unparse(c.args[0])}`" if c is not None and c.args else f"no single call of add_aligned_u{w}") +
+               f": not the {w}-bit two's complement image of the argument", f.lineno if f else None)
         g = D.get(f"fetch_aligned_i{w}")
-        src = ast.unparse(g).replace(" ", "") if g else ""
-        ok = f"self.fetch_aligned_u{w}()" in src and any(
-            (f"x-{k}" in src) and (f"ifx>={t_}elsex" in src) for k in (str(2 ** w), f"2**{w}") for t_ in (str(2 ** (w - 1)), f"2**{w - 1}"))
-        ctx.ob(R, rel, f"Deserializer.fetch_aligned_i{w} :: x - 2**{w} when x >= 2**{w - 1}", ok, "", g.lineno if g else None)
-    for meth, cls_ in (("add_aligned_signed", S), ("add_unaligned_signed", S)):
-        f = cls_.get(meth)
-        src = ast.unparse(f).replace(" ", "") if f else ""
-        ok = "(2**bit_length+valueifvalue<0elsevalue,bit_length)" in src and meth.replace("signed", "unsigned") in src
-        ctx.ob(R, rel, f"Serializer.{meth} :: 2**bit_length + value for negative values, same bit_length", ok, "", f.lineno if f else None)
+        e = _body_expr(g) if g else None
+        ok = False
+        if e is not None:
+            e = _through_method(D, e)
+            us = [c for c in ast.walk(e) if isinstance(c, ast.Call) and ast.unparse(c.func) == f"self.fetch_aligned_u{w}" and not c.args]
+            ok = bool(us) and _is_to_signed(e, us[0], w, {})
+        ctx.ob(R, rel, f"Deserializer.fetch_aligned_i{w} :: x - 2**{w} when x >= 2**{w - 1}", ok,
+               "" if ok else f"returns `{ast.unparse(e) if e is not None else '?'}`: not the signed reading of the {w}-bit pattern fetch_aligned_u{w}() delivers", g.lineno if g else None)
+    for meth in ("add_aligned_signed", "add_unaligned_signed"):
+        f = S.get(meth)
+        c = _call_of(f, meth.replace("signed", "unsigned"))
+        ok = False
+        if f is not None and c is not None and len(c.args) == 2 and len(f.args.args) == 3:
+            xv, bl = f.args.args[1].arg, f.args.args[2].arg
+            ok = _same(c.args[1], ast.Name(id=bl, ctx=ast.Load())) and _is_to_unsigned(_through_method(S, c.args[0]), ast.Name(id=xv, ctx=ast.Load()), None, {bl: ("w",)})
+        ctx.ob(R, rel, f"Serializer.{meth} :: 2**bit_length + value for negative values, same bit_length", ok,
+               "" if ok else (f"writes `{ast.unparse(c.args[0])}`" if c is not None and c.args else "delegation not recognised"), f.lineno if f else None)
     for meth in ("fetch_aligned_signed", "fetch_unaligned_signed"):
         g = D.get(meth)
-        src = ast.unparse(g).replace(" ", "") if g else ""
-        ok = f"self.{meth.replace('signed', 'unsigned')}(bit_length)" in src and "u-2**bit_lengthifu>=2**(bit_length-1)elseu" in src
-        ctx.ob(R, rel, f"Deserializer.{meth} :: u - 2**bit_length when u >= 2**(bit_length - 1)", ok, "", g.lineno if g else None)
+        e = _body_expr(g) if g else None
+        ok = False
+        if e is not None and len(g.args.args) == 2:
+            bl = g.args.args[1].arg
+            e = _through_method(D, e)
+            us = [c for c in ast.walk(e) if isinstance(c, ast.Call) and ast.unparse(c.func) == f"self.{meth.replace('signed', 'unsigned')}"
+                  and len(c.args) == 1 and _same(c.args[0], ast.Name(id=bl, ctx=ast.Load()))]
+            ok = bool(us) and _is_to_signed(e, us[0], None, {bl: ("w",)})
+        ctx.ob(R, rel, f"Deserializer.{meth} :: u - 2**bit_length when u >= 2**(bit_length - 1)", ok,
+               "" if ok else f"returns `{ast.unparse(e) if e is not None else '?'}`", g.lineno if g else None)
     for w, ch in ((16, "e"), (32, "f"), (64, "d")):
         for al in ("aligned", "unaligned"):
             f = S.get(f"add_{al}_f{w}")
